@@ -112,7 +112,12 @@ theorem ite_err_inv {α : Type} {c : Prop} [Decidable c] {s : Site} {x : Except 
 
 /-- the piece a graph edge stands for -/
 def pieceOf (e : GEdge) : Spec.Piece :=
-  ⟨e.seg, e.edge.shortcut, e.dst.ia? == e.seg.seg.lastIa, e.edge.peer⟩
+  ⟨e.seg, e.edge.shortcut, e.consDir, e.edge.peer⟩
+
+theorem consDir_of_lastIa {e : GEdge} {l : Nat} (h : e.seg.seg.lastIa = some l) :
+    e.consDir = (e.dst.ia? == some l) := by
+  unfold GEdge.consDir
+  cases e.dst.ia? <;> simp [h]
 
 theorem used_entry {s : Seg} {sc : Nat} {x : AsE × Nat} (hx : x ∈ s.entries.zipIdx.drop sc) :
     s.entries[x.2]? = some x.1 ∧ sc ≤ x.2 := by
@@ -200,7 +205,7 @@ theorem edgePart_spec {e : GEdge} {mtu m : Nat} {ifs : List (Nat × Nat)} {ps : 
             · simp at hcd
             · rename_i last hl
               injection hcd with hcd
-              simp [pieceOf, hl, ← hcd]
+              simp [pieceOf, consDir_of_lastIa hl, ← hcd]
           have hmapeq : (e.seg.seg.entries.zipIdx.drop e.edge.shortcut).map (hopOf e.edge.shortcut e.edge.peer)
               = (pieceOf e).consHops := by
             unfold Spec.Piece.consHops Spec.Piece.used Spec.Piece.entries
@@ -305,7 +310,7 @@ theorem coreInserts_piece (s : InSeg) (hc : s.core = true) (i : Ins) (hi : i ∈
     · -- as f → as l
       have hd : (pieceOf ⟨.as f, .as l, s, ⟨numberOfHops s.seg 0 false, 0, none⟩⟩)
           = Spec.Piece.mk s 0 true none := by
-        simp [pieceOf, Vertex.ia?, hl]
+        simp [pieceOf, GEdge.consDir, Vertex.ia?, hl]
       rw [hd]
       refine ⟨?_, ?_, hvalid true⟩
       · simp [Spec.Piece.from?, near_nopeer ha, jointOf, haf]
@@ -313,7 +318,7 @@ theorem coreInserts_piece (s : InSeg) (hc : s.core = true) (i : Ins) (hi : i ∈
     · -- as l → as f
       have hd : (pieceOf ⟨.as l, .as f, s, ⟨numberOfHops s.seg 0 false, 0, none⟩⟩)
           = Spec.Piece.mk s 0 (f == l) none := by
-        simp [pieceOf, Vertex.ia?, hl]
+        simp [pieceOf, GEdge.consDir, Vertex.ia?, hl]
       rw [hd]
       refine ⟨?_, ?_, hvalid _⟩
       · by_cases hfl : f = l
@@ -349,7 +354,7 @@ theorem entryInserts_piece (s : InSeg) (hc : s.core = false) (leaf : Nat) (hl : 
       · -- as leaf → as x.ia
         have hd : (pieceOf ⟨.as leaf, .as x.1.ia, s, ⟨numberOfHops s.seg x.2 false, x.2, none⟩⟩)
             = Spec.Piece.mk s x.2 (x.1.ia == leaf) none := by
-          simp [pieceOf, Vertex.ia?, hl]
+          simp [pieceOf, GEdge.consDir, Vertex.ia?, hl]
         rw [hd]
         refine ⟨?_, ?_, hvalid _⟩
         · by_cases hfl : x.1.ia = leaf
@@ -361,7 +366,7 @@ theorem entryInserts_piece (s : InSeg) (hc : s.core = false) (leaf : Nat) (hl : 
       · -- as x.ia → as leaf
         have hd : (pieceOf ⟨.as x.1.ia, .as leaf, s, ⟨numberOfHops s.seg x.2 false, x.2, none⟩⟩)
             = Spec.Piece.mk s x.2 true none := by
-          simp [pieceOf, Vertex.ia?, hl]
+          simp [pieceOf, GEdge.consDir, Vertex.ia?, hl]
         rw [hd]
         refine ⟨?_, ?_, hvalid _⟩
         · simp [Spec.Piece.from?, near_nopeer hget, jointOf]
@@ -382,14 +387,14 @@ theorem entryInserts_piece (s : InSeg) (hc : s.core = false) (leaf : Nat) (hl : 
     rcases hi' with h | h <;> subst h
     · have hd : (pieceOf ⟨.as leaf, .peering x.1.ia q.1.hop.ingress q.1.peer q.1.peerIf, s,
           ⟨numberOfHops s.seg x.2 true, x.2, some q.2⟩⟩) = Spec.Piece.mk s x.2 false (some q.2) := by
-        simp [pieceOf, Vertex.ia?, hl]
+        simp [pieceOf, GEdge.consDir, Vertex.ia?, hl]
       rw [hd]
       refine ⟨?_, ?_, hvalid _⟩
       · simp [Spec.Piece.from?, leaf_eq hl, jointOf]
       · simp [Spec.Piece.to?, near_peer hget hqget, jointOf]
     · have hd : (pieceOf ⟨.peering q.1.peer q.1.peerIf x.1.ia q.1.hop.ingress, .as leaf, s,
           ⟨numberOfHops s.seg x.2 false, x.2, some q.2⟩⟩) = Spec.Piece.mk s x.2 true (some q.2) := by
-        simp [pieceOf, Vertex.ia?, hl]
+        simp [pieceOf, GEdge.consDir, Vertex.ia?, hl]
       rw [hd]
       refine ⟨?_, ?_, hvalid _⟩
       · simp [Spec.Piece.from?, near_peer hget hqget, jointOf]
@@ -444,11 +449,27 @@ theorem lastV_snoc : ∀ (l : List GEdge) (v : Vertex) (e : GEdge), lastV v (l +
   | nil => intro v e; rfl
   | cons a as ih => intro v e; simp [lastV, ih]
 
+/-- `Spec.Piece.use` as a function of the two flags the code looks at -/
+def useOf (core cons : Bool) : Spec.Use := if core then .core else if cons then .down else .up
+
+theorem pieceOf_use (e : GEdge) : (pieceOf e).use = useOf e.seg.core e.consDir := rfl
+
+/-- the generated two-edge table of `valid_next_seg` admits exactly the ordered pairs of uses -/
+theorem valid2_iff (aC aD nC nD : Bool) :
+    valid2 aC aD nC nD = Spec.usesOk [useOf aC aD, useOf nC nD] := by
+  cases aC <;> cases aD <;> cases nC <;> cases nD <;> decide
+
+/-- the generated three-edge table admits exactly up · core · down -/
+theorem valid3_iff (aC aD bC bD nC nD : Bool) (hab : valid2 aC aD bC bD = true) :
+    valid3 aC aD bC bD nC nD = Spec.usesOk [useOf aC aD, useOf bC bD, useOf nC nD] := by
+  revert hab
+  cases aC <;> cases aD <;> cases bC <;> cases bD <;> cases nC <;> cases nD <;> decide
+
 structure IsChain (g : List GEdge) (src : Nat) (s : Sol) : Prop where
   mem : ∀ e ∈ s.edges, e ∈ g
   chain : edgesChain (.as src) s.edges
   cur : s.cur = lastV (.as src) s.edges
-  kinds : s.edges = [] ∨ Spec.kindsOk (s.edges.map fun e => e.seg.core) = true
+  kinds : s.edges = [] ∨ Spec.usesOk (s.edges.map fun e => (pieceOf e).use) = true
   cost : s.cost = (s.edges.map fun e => e.edge.weight).sum
 
 theorem extend_isChain {g : List GEdge} {src : Nat} {s t : Sol} (hs : IsChain g src s) (h : t ∈ extend g s) :
@@ -466,21 +487,27 @@ theorem extend_isChain {g : List GEdge} {src : Nat} {s t : Sol} (hs : IsChain g 
   · right
     simp only
     cases hE : s.edges with
-    | nil => simp [Spec.kindsOk]
+    | nil => simp [Spec.usesOk]
     | cons a r1 =>
       cases r1 with
       | nil =>
         rw [hE] at hv
         simp only [validNext, valid2] at hv
-        simp only [List.cons_append, List.nil_append, List.map_cons, List.map_nil, Spec.kindsOk]
-        revert hv; cases a.seg.core <;> cases e.seg.core <;> simp
+        simp only [List.cons_append, List.nil_append, List.map_cons, List.map_nil, pieceOf_use]
+        rw [← valid2_iff]; exact hv
       | cons b r2 =>
         cases r2 with
         | nil =>
           rw [hE] at hv
           simp only [validNext, valid3] at hv
-          simp only [List.cons_append, List.nil_append, List.map_cons, List.map_nil, Spec.kindsOk]
-          revert hv; cases a.seg.core <;> cases b.seg.core <;> cases e.seg.core <;> simp
+          simp only [List.cons_append, List.nil_append, List.map_cons, List.map_nil, pieceOf_use]
+          have hab : valid2 a.seg.core a.consDir b.seg.core b.consDir = true := by
+            rcases hs.kinds with h | h
+            · rw [hE] at h; cases h
+            · rw [hE] at h
+              simp only [List.map_cons, List.map_nil, pieceOf_use] at h
+              rw [valid2_iff]; exact h
+          rw [← valid3_iff _ _ _ _ _ _ hab]; exact hv
         | cons c r3 =>
           rw [hE] at hv
           simp [validNext] at hv
